@@ -78,10 +78,15 @@ Proof. exact @dense_support_form. Qed.
 Print Assumptions C07_dense_support_form.
 
 (** * (b) the patterned algorithm *)
-(** Full statement (open in this generality):
+(** Full statement:
       forall typed operands ts, einsum_model ts inputs output = Ok r ->
         denote r = einsum_dense (map dn ts) inputs output.
-    Proved: the same for the operands [er_ts] the algorithm works on (after [default_to(zero)] and
+    It is proved without certificate premises for operands typed in a common context over good
+    index types: [C07_patterned_eq_dense_typed] (at the end of this file), which derives every
+    premise below from typing ([C07_cert_premises_typed]).  The [_partial] theorems that follow
+    remain the statement for everything else (zero-size indices, index types with a sum type of
+    size 1, operands not typed alike), under the decidable premises evaluated per case:
+    the same for the operands [er_ts] the algorithm works on (after [default_to(zero)] and
     [freshen]; [C07_prepared_operands]: these are [ts] themselves when the defaults are zero and
     the physical axes pairwise disjoint), for the result before [__post_init__]
     ([C07_post_init_identity]: which is then the identity), under the decidable premises
@@ -494,3 +499,12 @@ Theorem C07_typed_operands_sum_example :
   exists p, einsum_model bool_ops Bool.eqb false 10 [ex_c; ex_d] [[0]; [0]] [] = Ok p /\ denote bool p [] = true.
 Proof. exact typed_operands_sum_ex. Qed.
 Print Assumptions C07_typed_operands_sum_example.
+
+(** ... and those of [C07_argmax_typed] on the first pair (Boolean semiring, selective addition) *)
+Theorem C07_argmax_typed_example :
+  exists r, einsum_run bool_ops Bool.eqb false 10 [ex_a; ex_b] [[0]; [0]] [] = Ok r /\ er_failed r = false /\
+            index_list (er_outv r) [] [] = IOk [] /\
+            viterbi_ptr_model bool_ops (fun x y => implb x y) r [] [] = Ok [1] /\
+            (forall a b, Semiring.add bool_ops a b = if implb a b then b else a).
+Proof. exact viterbi_typed_ex. Qed.
+Print Assumptions C07_argmax_typed_example.
